@@ -29,7 +29,7 @@ func c19FeatureOpts() []Opt {
 		{Name: "WithScopes", Scopes: serverScopes}, {Name: "WithRefreshTokenRotation"}, {Name: "WithJWTBearerGrantClientAuthnRequired"},
 		{Name: "WithCIBAUserCode"}, {Name: "WithCIBAJAR"}, {Name: "WithOpenIDScopeRequired"},
 		{Name: "WithUnregisteredRedirectURIsForPAR"}, {Name: "WithJARByReference"}, {Name: "WithTLSCertTokenBindingRequired"},
-		{Name: "WithTokenBindingRequired"}, {Name: "WithDCRTokenRotation"}, {Name: "WithResourceIndicatorsRequired"},
+		{Name: "WithTokenBindingRequired"}, {Name: "WithDCRTokenRotation"}, {Name: "WithResourceIndicatorsRequired", S: "https://rs.example"},
 		{Name: "WithIssuerResponseParameter"},
 	}
 }
